@@ -1052,7 +1052,8 @@ void tickit_term_chpen(TickitTerm *tt, const TickitPen *pen)
 
     int index = -1;
     bool convert = (attr == TICKIT_PEN_FG || attr == TICKIT_PEN_BG) &&
-       (index = tickit_pen_get_colour_attr(pen, attr)) >= tt->colors;
+       (index = tickit_pen_get_colour_attr(pen, attr)) >= tt->colors &&
+       index >= 0; /* the default colour is never looked up, whatever the colour count (-1 = none) */
     if(convert)
       index = convert_colour(index, tt->colors);
 
@@ -1085,7 +1086,8 @@ void tickit_term_setpen(TickitTerm *tt, const TickitPen *pen)
   for(TickitPenAttr attr = 1; attr < TICKIT_N_PEN_ATTRS; attr++) {
     int index = -1;
     bool convert = (attr == TICKIT_PEN_FG || attr == TICKIT_PEN_BG) &&
-       (index = tickit_pen_get_colour_attr(pen, attr)) >= tt->colors;
+       (index = tickit_pen_get_colour_attr(pen, attr)) >= tt->colors &&
+       index >= 0; /* the default colour is never looked up, whatever the colour count (-1 = none) */
     if(convert)
       index = convert_colour(index, tt->colors);
 
